@@ -196,15 +196,24 @@ def _new_scenarios(ctx, cls_name, antisym: bool):
         fn, {"cls": cls, "name": "T", "upper": tuple(U0), "lower": tuple(L0), "bra_ket_sym": 2})
     ctx.check("R06c", fn, kind == "raise", "bra_ket_sym=2 refused", "invalid bra-ket symmetry accepted",
               key="invalid bks")
-    if antisym:
-        def pauli(i, node, a, kw):
+    # repeated index inside a group: zero for antisymmetric groups, a regular tensor for symmetric ones
+    def pauli(i, node, a, kw):
+        if len({id(x) for x in a[0]}) != len(list(a[0])):
             raise Raised("ViolationOfPauliPrinciple")
-        env3 = dict(env)
-        env3["_sort_anticommuting_fermions"] = pauli
-        kind, val = Interp(env3, what=f"{cls_name}.__new__").call(
-            fn, {"cls": cls, "name": "T", "upper": tuple(U0), "lower": tuple(L0), "bra_ket_sym": 0})
+        return (list(a[0]), 0)
+    env3 = dict(env)
+    env3["_sort_anticommuting_fermions"] = pauli
+    rep = (U0[0], U0[0])
+    kind, val = Interp(env3, what=f"{cls_name}.__new__").call(
+        fn, {"cls": cls, "name": "T", "upper": rep, "lower": tuple(L0), "bra_ket_sym": 0})
+    if antisym:
         ctx.check("R06c", fn, kind == "return" and val is S_ZERO, "repeated index in an antisymmetric group gives zero",
                   f"Pauli violation gives {kind} {val!r} instead of zero", key="pauli")
+    else:
+        ok = kind == "return" and isinstance(val, Sym) and val.name == "obj"
+        ctx.check("R06c", fn, ok, "repeated index in a symmetric group does not vanish",
+                  f"a symmetric tensor with a repeated index inside a group evaluates to {val!r}; the declared "
+                  "symmetry does not force it to zero", key="symmetric repeated")
     return n
 
 
@@ -284,6 +293,16 @@ def r06d(ctx):
 # ---------------------------------------------------------------------- R06f
 
 
+def enclosing_if(node):
+    p = getattr(node, "_parent", None)
+    child = node
+    while p is not None and not isinstance(p, (ast.FunctionDef,)):
+        if isinstance(p, ast.If) and any(child is s for s in p.body):
+            return p
+        child, p = p, getattr(p, "_parent", None)
+    return None
+
+
 def r06f(ctx):
     mr = ctx.model.fn("expr_container:Expr.make_real")
     first = common.strip_docstring(mr.body)[0]
@@ -294,6 +313,17 @@ def r06f(ctx):
     ctx.check("R06f", mr, any(U(a.value) == "True" for a in sets), "real flag set", "real flag not set",
               key="make_real flag")
     upd = [c for c in calls_in(mr) if call_name(c) == "update" and "_sym_tensors" in U(c.func.value)]
+    for c in upd:
+        iff = enclosing_if(c)
+        ok = iff is None
+        if iff is not None:
+            t = iff.test
+            if isinstance(t, ast.BoolOp) and isinstance(t.op, ast.Or):
+                parts = sorted(U(v) for v in t.values)
+                ok = len(parts) == 2 and parts[0].startswith("tensor_names.eri not in ") and parts[1].startswith("tensor_names.fock not in ")
+        ctx.check("R06f", c, ok, "symmetry added whenever fock or eri is not yet declared symmetric",
+                  f"fock/eri symmetry is only added under `{U(iff.test) if iff is not None else ''}`; if just one of the two is "
+                  "already declared, the other is never made bra-ket symmetric", key="make_real guard")
     ok = any({U(e) for e in c.args[0].elts} == {"tensor_names.fock", "tensor_names.eri"}
              for c in upd if c.args and isinstance(c.args[0], (ast.List, ast.Tuple, ast.Set)))
     ctx.check("R06f", mr, ok, "real basis adds bra-ket symmetry to fock and eri only",
